@@ -40,7 +40,7 @@ ASSUMPTIONS = {
     "C05": ["the harness interner (harness/src/reggen.rs) produces what scale-info's derive would produce for the program "
             "(quick tier: not re-validated in this run; the thorough tier compiles the programs and compares with the real derive); "
             "its entries are checked against the specification RegistryOf on every case (corr_registry_of)"],
-    "C06": ["std HashMap / HashSet iteration order is an arbitrary permutation and nothing else leaks; runs in fresh processes are not part of this check"],
+    "C06": ["std HashMap / HashSet iteration order is an arbitrary permutation and nothing else leaks (probed on every run by comparing the case files of two harness processes byte for byte)"],
     "C12": ["the ChaCha8 word stream is an oracle supplied by the harness (rand_chacha); encode/decode round trips are executed with scale-value, not proved"],
     "C14": ["the ChaCha8 word stream is an oracle supplied by the harness (rand_chacha); syn::parse2::<Expr> is run on every observed example"],
     "C17": ["scale-info's PortableRegistry::retain is used as is for the restriction pairs (its id map names the retained ids)",
